@@ -1,6 +1,6 @@
 (* Extract.v — extraction of the executable models to OCaml (ExtrOcamlBasic only).
    Run from /verif/ocaml: coqc -Q ../coq Rux ../coq/Extract.v *)
-From Rux Require Import Base Consts Cache Str Norm Writer Chain Dispatch Reg Rx RxParse Pattern Pat Table PatTable Gates Rest Build.
+From Rux Require Import Base Consts Cache Str Norm Writer Chain Dispatch Reg Rx RxParse Pattern Pat Table PatTable Gates Rest Build Static.
 Require Import ExtrOcamlBasic.
 Extraction "model.ml"
   str_eqb Z.of_nat Z.to_nat
@@ -13,4 +13,5 @@ Extraction "model.ml"
   parse_pat pat_matches pat_params pat_names first_segment pat_is_static spec_select compile_dyn compile_re parse_rx full matches akeys link_ok
   basic_auth auth_prog method_override wrap_loop wrap_spec
   all_actions action_name action_methods action_path action_id route_name resource_stmts resource_guard documented_path nf
-  build_path var_texts split_args placeholder subst_items map_set.
+  build_path var_texts split_args placeholder subst_items map_set
+  clean_rooted clean_stack dir_open strip_prefix ext_filter.
